@@ -102,15 +102,28 @@ Definition as_rawdef (s : sx) : option rawdef :=
   | XL [a; b; c] => match as_NL a, as_NL b, as_NL c with Some a, Some b, Some c => Some (a, b, c) | _, _, _ => None end
   | _ => None
   end.
-Definition as_ctx (s : sx) : option lctx :=
+(* ctx = (cf_mode customs) or (cf_mode customs rates); rates = 1: the fake
+   exchange rates of the generated table, otherwise no / a failing handler *)
+Definition as_ctx (s : sx) : option (lctx * bool) :=
   match s with
   | XL [cf; XL cu] =>
     match as_bool cf, as_list as_rawdef cu with
-    | Some cf, Some cu => Some (mklctx cu cf)
+    | Some cf, Some cu => Some (mklctx cu cf, true)
+    | _, _ => None
+    end
+  | XL [cf; XL cu; XA r] =>
+    match as_bool cf, as_list as_rawdef cu with
+    | Some cf, Some cu => Some (mklctx cu cf, (r =? 1)%Z)
     | _, _ => None
     end
   | _ => None
   end.
+
+Definition cur_for (rates : bool) : str -> lres value :=
+  if rates then cur_table else (fun _ => LErr EOther).
+
+Definition model_query_r (c : lctx * bool) (extra : list (str * lres value)) (ident : str) : lres value :=
+  query_unit (ev_with extra) (cur_for (snd c)) the_tables (fst c) ident.
 Definition as_extra_entry (s : sx) : option (str * lres value) :=
   match s with
   | XL [b; r] => match as_NL b, as_lres_value r with Some b, Some r => Some (b, r) | _, _ => None end
@@ -141,7 +154,7 @@ Definition run_units : dispatcher := fun op args =>
     | [c; id; sp; cs; wu] =>
       match as_ctx c, as_NL id, as_bool sp, as_bool cs, as_bool wu with
       | Some c, Some id, Some sp, Some cs, Some wu =>
-        Some (match query_unit_internal the_tables c id sp cs wu with
+        Some (match query_unit_internal the_tables (fst c) id sp cs wu with
               | Some d => sx_rawdef d
               | None => XL [XS (B"none")]
               end)
@@ -154,9 +167,26 @@ Definition run_units : dispatcher := fun op args =>
     match args with
     | [c; ex; id] =>
       match as_ctx c, as_extra ex, as_NL id with
-      | Some c, Some ex, Some id => Some (sx_lres sx_value (model_query c ex id))
+      | Some c, Some ex, Some id => Some (sx_lres sx_value (model_query_r c ex id))
       | _, _, _ => Some sx_bad
       end
+    | _ => Some sx_bad
+    end
+  else if opeq op "status" then
+    (* (status ctx extra ident ...) -> (code ...) : 0 ok, 1 notfound, 2 error, 3 panic *)
+    match args with
+    | c :: ex :: ids =>
+      match as_ctx c, as_extra ex, as_list as_NL ids with
+      | Some c, Some ex, Some ids =>
+        Some (XL (map (fun id => sx_N (status_of (model_query_r c ex id))) ids))
+      | _, _, _ => Some sx_bad
+      end
+    | _ => Some sx_bad
+    end
+  else if opeq op "upper" then
+    (* (upper str) : the model of str::to_uppercase *)
+    match args with
+    | [s] => match as_NL s with Some s => Some (sx_str (str_upper s)) | None => Some sx_bad end
     | _ => Some sx_bad
     end
   else if opeq op "quantity" then
